@@ -91,54 +91,7 @@ def run(ctx, rep):
                 rep.ob('R11.c', FILESTATE_APPLY, 'alloc', not ys, inc.where(),
                        'no await between the emptiness test and the index advance' if not ys else 'suspension point at %s between reading entries_count and advancing current_index' % b.where(ys[0]))
 
-    # ------------------------------------------------------------ R11.h index re-seeding at init pairs with allocation in apply
-    rep.rule('R11.h', 'after a restart the first allocated index is last loaded index + 1: (offset stored by init) + (offset added by apply) == 1', floor=2, analysis='A10')
-    ib = ctx.fn_body(FILESTATE_INIT)
-    a_off = []
-    for c in ib.calls:
-        if not c.matches('std::sync::atomic::Atomic::store'):
-            continue
-        tgt = ib.expr_operand(c.args[0])
-        if tgt[0] != 'field' or tgt[3] != FS:
-            continue
-        v = ib.expr_operand(c.args[1])
-        if tgt[2] == 'current_index':
-            off = _last_index_offset(ctx, ib, v)
-            if off == 'zero':
-                # must be on the empty-journal edge
-                lits = [(e, t) for e, t, _ in bool_literals_at(ib, c.bb)]
-                ok = any(e[0] == 'bin' and e[1] in ('Eq',) and is_const(e[3], 0) and t for e, t in lits) or any(
-                    e[0] == 'call' and e[1].endswith('is_empty') and t for e, t in lits)
-                rep.ob('R11.h', FILESTATE_INIT, 'seed-empty', ok, c.where(), 'current_index = 0 only for an empty journal' if ok else 'current_index reset to 0 although the journal may hold entries')
-            elif off is None:
-                rep.ob('R11.h', FILESTATE_INIT, 'seed-form', False, c.where(), 'value stored to current_index is not derived from the last loaded entry\'s index: %s' % render(v)[:160])
-            else:
-                a_off.append((off, c))
-        elif tgt[2] == 'entries_count':
-            ok = v[0] == 'call' and v[1].split('::')[-1] == 'len' and expr_has_call(v, 'load_entries')
-            rep.ob('R11.h', FILESTATE_INIT, 'seed-count', ok, c.where(), 'entries_count = number of loaded entries' if ok else 'entries_count is not seeded with the number of loaded entries: %s' % render(v)[:120])
-    b_off = None
-    fa = [c for c in b.calls if c.matches('std::sync::atomic::Atomic::fetch_add') and b.expr_operand(c.args[0])[:3:2] == ('field', 'current_index')]
-    if fa:
-        # how is the result used: find the named `index` value = fetch_add (+1)?
-        for blk in sorted(b.reach):
-            for st in b.stmts(blk):
-                rv = st.get('rv')
-                if not rv:
-                    continue
-                e = b._expr_rvalue(rv, 0, frozenset())
-                if e[0] == 'bin' and e[1] == 'Add' and e[2][0] == 'call' and e[2][3] == fa[0].bb and is_const(e[3]):
-                    b_off = int(e[3][1])
-        if b_off is None:
-            b_off = 0
-        if not is_const(b.expr_operand(fa[0].args[1]), 1):
-            b_off = None
-    if not a_off or b_off is None:
-        rep.anchor_lost('R11.h', 'index seeding in init / allocation in apply')
-    for off, c in a_off:
-        ok = off + b_off == 1
-        rep.ob('R11.h', FILESTATE_INIT, 'seed-pairs-with-alloc', ok, c.where(),
-               'init stores last_index%+d, apply allocates fetch_add(1)%+d: first new index = last + %d' % (off, b_off, off + b_off))
+    rule_index_seeding(ctx, rep, 'R11.h')
 
     # ------------------------------------------------------------ R11.d loader continuity + checksum
     rep.rule('R11.d', 'the loader pushes an entry only after index continuity and checksum equality were tested; the failing edges return an error', floor=2, analysis='A2+A3')
@@ -307,6 +260,59 @@ def run(ctx, rep):
             rep.ob('R11.g', d, 'flush-before-drop', bad is None, w.where(),
                    'write_all is followed by %s on every Ok path' % short(flushes[0].name) if bad is None else
                    bad + ': tokio::fs::File finishes the write in a background task after the handle is dropped, so two consecutive journal appends (each opening its own handle) can reach the file in the opposite order and a write error is lost')
+
+
+def rule_index_seeding(ctx, rep, rid):
+    b = ctx.fn_body(FILESTATE_APPLY)
+    # ------------------------------------------------------------ R11.h index re-seeding at init pairs with allocation in apply
+    rep.rule(rid, 'after a restart the first allocated index is last loaded index + 1: (offset stored by init) + (offset added by apply) == 1', floor=2, analysis='A10')
+    ib = ctx.fn_body(FILESTATE_INIT)
+    a_off = []
+    for c in ib.calls:
+        if not c.matches('std::sync::atomic::Atomic::store'):
+            continue
+        tgt = ib.expr_operand(c.args[0])
+        if tgt[0] != 'field' or tgt[3] != FS:
+            continue
+        v = ib.expr_operand(c.args[1])
+        if tgt[2] == 'current_index':
+            off = _last_index_offset(ctx, ib, v)
+            if off == 'zero':
+                # must be on the empty-journal edge
+                lits = [(e, t) for e, t, _ in bool_literals_at(ib, c.bb)]
+                ok = any(e[0] == 'bin' and e[1] in ('Eq',) and is_const(e[3], 0) and t for e, t in lits) or any(
+                    e[0] == 'call' and e[1].endswith('is_empty') and t for e, t in lits)
+                rep.ob(rid, FILESTATE_INIT, 'seed-empty', ok, c.where(), 'current_index = 0 only for an empty journal' if ok else 'current_index reset to 0 although the journal may hold entries')
+            elif off is None:
+                rep.ob(rid, FILESTATE_INIT, 'seed-form', False, c.where(), 'value stored to current_index is not derived from the last loaded entry\'s index: %s' % render(v)[:160])
+            else:
+                a_off.append((off, c))
+        elif tgt[2] == 'entries_count':
+            ok = v[0] == 'call' and v[1].split('::')[-1] == 'len' and expr_has_call(v, 'load_entries')
+            rep.ob(rid, FILESTATE_INIT, 'seed-count', ok, c.where(), 'entries_count = number of loaded entries' if ok else 'entries_count is not seeded with the number of loaded entries: %s' % render(v)[:120])
+    b_off = None
+    fa = [c for c in b.calls if c.matches('std::sync::atomic::Atomic::fetch_add') and b.expr_operand(c.args[0])[:3:2] == ('field', 'current_index')]
+    if fa:
+        # how is the result used: find the named `index` value = fetch_add (+1)?
+        for blk in sorted(b.reach):
+            for st in b.stmts(blk):
+                rv = st.get('rv')
+                if not rv:
+                    continue
+                e = b._expr_rvalue(rv, 0, frozenset())
+                if e[0] == 'bin' and e[1] == 'Add' and e[2][0] == 'call' and e[2][3] == fa[0].bb and is_const(e[3]):
+                    b_off = int(e[3][1])
+        if b_off is None:
+            b_off = 0
+        if not is_const(b.expr_operand(fa[0].args[1]), 1):
+            b_off = None
+    if not a_off or b_off is None:
+        rep.anchor_lost(rid, 'index seeding in init / allocation in apply')
+    for off, c in a_off:
+        ok = off + b_off == 1
+        rep.ob(rid, FILESTATE_INIT, 'seed-pairs-with-alloc', ok, c.where(),
+               'init stores last_index%+d, apply allocates fetch_add(1)%+d: first new index = last + %d' % (off, b_off, off + b_off))
+
 
 
 def _last_index_offset(ctx, body, v):
